@@ -82,3 +82,13 @@ Definition kf_C13 (i : val) : Z :=
       end
   | _ => 0
   end.
+
+(* well-formed inputs: one of the three modelled operations with a decodable record (what the generators emit;
+   op 9 = raw bytes is outside the model) *)
+Definition wf_C13 (i : val) : bool :=
+  match i with
+  | VL [VZ 1; VZ _; h; v; r; c] => is_some (d_files h v r c)
+  | VL [VZ 2; VZ _; g] => is_some (d_gslb g)
+  | VL [VZ 3; VZ _; t] => is_some (d_ctable t)
+  | _ => false
+  end.
